@@ -25,9 +25,10 @@ IMPORTS = ("From Coq Require Import Qcanon.\nFrom PV Require Import C05.Model C0
            "Local Open Scope nat_scope.\n")
 EPS = Fraction(1, 2 ** 30)
 NEG = "-inf"
-THEOREMS = ["c05_pbs_exact_when_unpruned", "c05_pbs_le_exact", "c05_prefix_matrix_invariant",
-            "c05_valid_prefixes_distinct_blank_free_bounded", "c05_sorted_by_mass",
-            "c05_invalid_slots_last_and_massless", "c05_element_independent_of_padding_frames"]
+THEOREMS = ["c05_model_mass_le_exact", "c05_model_exact_when_unpruned", "c05_prefix_matrix_invariant",
+            "c05_prefix_matrix_invariant_step", "c05_valid_prefixes_distinct_blank_free_bounded", "c05_sorted_by_mass",
+            "c05_invalid_slots_last", "c05_element_independent_of_padding_frames",
+            "c05_pbs_exact_when_unpruned", "c05_pbs_le_exact"]
 
 
 # ------------------------------------------------------------------------------------------
@@ -536,7 +537,7 @@ def gen_search(rng, big=False):
     N = rng.choice([1, 1, 2, 3])
     reach = _nprefixes(V, T)
     width = rng.choice([1, 2, 2, 3, 4, 5, 6, 8, max(1, reach - 1), reach, reach + 1, reach + 4, 2 * reach + 3])
-    width = min(width, 45)
+    width = min(width, 45 if big else 24)
     style = rng.choice(["dense", "mixed", "mixed", "zeroinf"])
     case = dict(kind="search", T=T, N=N, V=V, width=width, logits=_rand_logits(rng, T, N, V, style), lens=None,
                 fusion="none", beta=0.2, lm=None)
@@ -575,6 +576,30 @@ def gen_search_exhaustive(thorough):
 # ------------------------------------------------------------------------------------------
 # driver
 # ------------------------------------------------------------------------------------------
+
+def eval_balanced(chk, terms, tag="cases", per_shard=40):
+    """coq_eval_bools with the terms dealt to the shards by decreasing size, so that no shard
+    collects all the expensive ones"""
+    n = len(terms)
+    if n == 0:
+        return []
+    jobs = 16
+    nshards = max(1, min(max(jobs, -(-n // per_shard)), n))
+    order = sorted(range(n), key=lambda i: -len(terms[i]))
+    groups = [order[g::nshards] for g in range(nshards)]
+    size = max(len(g) for g in groups)
+    flat, back = [], []
+    for g in groups:
+        pad = size - len(g)
+        flat += [terms[i] for i in g] + ["true"] * pad
+        back += list(g) + [None] * pad
+    res = coq_eval_bools(chk.workdir, IMPORTS, flat, shard=size, tag=tag)
+    out = [True] * n
+    for r, i in zip(res, back):
+        if i is not None:
+            out[i] = r
+    return out
+
 
 def run_impl(case):
     return run_advance(case) if case["kind"] == "advance" else run_search(case)
@@ -734,8 +759,8 @@ def run(chk, cases=None):
                 if t is not None:
                     sterms.append(t)
                     sowner.append(i)
-    res = coq_eval_bools(chk.workdir, IMPORTS, terms, shard=120)
-    sres = coq_eval_bools(chk.workdir, IMPORTS, sterms, shard=60, tag="spec") if sterms else []
+    res = eval_balanced(chk, terms)
+    sres = eval_balanced(chk, sterms, tag="spec", per_shard=20)
     bad = sorted({owner[j] for j, ok in enumerate(res) if not ok})
     sbad = sorted({sowner[j] for j, ok in enumerate(sres) if not ok})
     chk.extra["model_disagreements"] = len(bad)
